@@ -132,6 +132,11 @@ def gen(r, **kw):
     return Gen(r, **kw).value(0)
 
 
+# containers with an id in this range keep their recipe order under every insertion permutation (mappings whose keys
+# are not mutually comparable: their text legitimately follows the insertion order)
+FIXED_ORDER_IDS = (880000, 890000)
+
+
 def build(recipe, pt_class=Pt, perm=0):
     """Recipe -> Python value (containers created on first visit, filled afterwards, so
     ['ref', id] to an enclosing container gives a recursive structure).  perm != 0: the
@@ -142,7 +147,7 @@ def build(recipe, pt_class=Pt, perm=0):
 
     def order(n, cid):
         idx = list(range(n))
-        if perm:
+        if perm and not (FIXED_ORDER_IDS[0] <= cid < FIXED_ORDER_IDS[1]):
             random.Random(perm * 1000003 + cid).shuffle(idx)
         return idx
 
